@@ -459,6 +459,17 @@ func (w *c06World) finish() {
 			w.viol = fmt.Sprintf("panic while draining: %v", r)
 		}
 	}()
+	// before anything is drained: whatever was handed out zero-copy and not released must survive an adversary that
+	// allocates, scribbles over and recycles every free buffer (so every history effectively ends with that op)
+	if len(w.pins) > 0 {
+		for s := 0; s < 2; s++ {
+			w.apply(c06Op{K: 'Z', S: s})
+			if w.viol != "" {
+				w.viol = "completion adversary: " + w.viol
+				return
+			}
+		}
+	}
 	for s := 0; s < 2; s++ {
 		if w.st[s] == nil {
 			continue
